@@ -206,7 +206,7 @@ func VerifC25_kfakeUniform() {
 	var in *verifC25In
 	if verifThorough() {
 		name := [...]string{"uniform", ""}[verifC25Pick(2)]
-		in = verifC25State(name, 1, 2, []int{3, 2}, 0, false, true, false, 1)
+		in = verifC25State(name, 1, 2, []int{2, 2}, 0, false, true, false, 1)
 	} else {
 		in = verifC25State("uniform", 2, 2, []int{2, 1}, 0, false, false, false, 1)
 	}
@@ -224,7 +224,7 @@ func VerifC25_kfakeUniform() {
 func VerifC25_kfakeUniformAway() {
 	var in *verifC25In
 	if verifThorough() {
-		in = verifC25State("uniform", 2, 3, []int{2, 2}, 2, false, false, false, 1)
+		in = verifC25State("uniform", 2, 3, []int{2, 1}, 2, false, false, true, 1)
 	} else {
 		in = verifC25State("uniform", 2, 2, []int{2, 1}, 2, false, false, true, 1)
 	}
@@ -251,7 +251,7 @@ func VerifC25_kfakeUniformJunk() {
 func VerifC25_kfakeUniform3() {
 	var in *verifC25In
 	if verifThorough() {
-		in = verifC25State("uniform", 3, 3, []int{3, 2}, 0, false, false, true, 1)
+		in = verifC25State("uniform", 3, 3, []int{2, 2}, 0, false, false, true, 1)
 	} else {
 		in = verifC25State("uniform", 3, 3, []int{2, 1}, 0, false, false, true, 3)
 	}
@@ -265,7 +265,7 @@ func VerifC25_kfakeUniform3() {
 func VerifC25_kfakeRange() {
 	var in *verifC25In
 	if verifThorough() {
-		in = verifC25State("range", 1, 3, []int{3, 3}, 1, true, true, false, 2)
+		in = verifC25State("range", 1, 3, []int{3, 3}, 1, false, false, false, 2)
 	} else {
 		in = verifC25State("range", 2, 3, []int{2, 1}, 0, false, false, false, 0)
 	}
